@@ -211,6 +211,41 @@ def check(ctx: Ctx) -> list[RuleResult]:
         r7.ok({"effect_state": "the expiry timer can be armed after a first send and after a retransmission"})
     out.append(r7)
 
+    # ---- R9 ---------------------------------------------------------------------------
+    # while disconnected the only transition is the re-connection: the Inactive state holds whatever the disconnect left behind (a
+    # finished future, say), and set_state() without a result/exception/expired flag asserts that there is no finished future - so
+    # any other method of the Inactive state that calls set_state() (a repeated connection_lost, a late packet) trips the machine's
+    # own consistency check and leaves it half-changed
+    r9 = RuleResult("R9", "no transition out of (or within) Inactive except on connection_made", "in class Inactive only connection_made calls set_state()", min_instances=1)
+    ina = repo.cls(f"{MOD}.Inactive")
+    from .common import edge_implies as _ei9
+    from .common import facts_at as _fa9
+
+    seen9: set[str] = set()
+    not_inactive = [ast.parse(g_, mode="eval").body for g_ in ("not isinstance(self._context._state, Inactive)", "not isinstance(self._context.state, Inactive)")]
+    for k in ina.mro:  # the methods an Inactive state object answers with: its own, then the inherited ones
+        for mname, m in sorted(k.methods.items()):
+            if mname in seen9 or mname.startswith("__"):
+                continue
+            seen9.add(mname)
+            calls9 = [c for c in own_nodes(m.node) if isinstance(c, ast.Call) and isinstance(c.func, ast.Attribute) and c.func.attr == "set_state"]
+            for c9 in calls9:
+                r9.instances += 1
+                r9.nontrivial += 1
+                st9 = c9
+                while not isinstance(st9, ast.stmt):
+                    st9 = st9.parent  # type: ignore[attr-defined]
+                excluded = k is not ina and any(_ei9(t, v, g_) for t, v in _fa9(st9) for g_ in not_inactive)
+                if mname == "connection_made" and k is ina:
+                    r9.ok({"Inactive.connection_made": norm(c9)[:50]})
+                elif excluded:
+                    r9.ok({"inherited": f"{k.name}.{mname}", "set_state": norm(c9)[:50], "only_when": "the state is not Inactive"})
+                else:
+                    r9.fail(f"{m.short}:transition-while-inactive", m.loc(c9), f"an Inactive state answers {mname}() with `{norm(c9)[:60]}` ({k.name}.{mname}, not excluded for the Inactive state): a state change while disconnected runs into set_state()'s checks on the finished future the disconnect left behind, so a repeated {mname} callback raises 'Coding error' inside the event loop instead of being ignored")
+    if r9.instances < 1:
+        raise AnalysisError("class Inactive: connection_made no longer calls set_state()")
+    out.append(r9)
+
     # ---- R8 ---------------------------------------------------------------------------
     # the expiry timer is what gets a sending state out of waiting when nothing arrives: once its sleep is over, every way through
     # the callback changes the state (retransmit or give up). A way out that leaves the state alone - "somebody else will reset the
